@@ -28,7 +28,7 @@ func init() {
 			if tier == "thorough" {
 				return []core.Suite{{Name: "ops", N: 150000}}
 			}
-			return []core.Suite{{Name: "ops", N: 3000}}
+			return []core.Suite{{Name: "ops", N: 12000}}
 		},
 		Run: func(c *core.Ctx) {
 			tag := uint64(c.Seed)<<32 | uint64(c.Index)
